@@ -87,6 +87,7 @@ type agg struct {
 	libPanics   int
 	wallMsTotal int64
 	panicNotes  []string
+	raceRuns, raceReports, raceNonLib, raceBroken int
 }
 
 func newAgg() *agg {
@@ -163,6 +164,7 @@ func (a *agg) add(r *RunResult, prop string) {
 type found struct {
 	v   Violation
 	res *RunResult
+	bin string // binary that produced it ("" = the plain one)
 }
 
 func cmdRun(args []string) int {
@@ -199,6 +201,7 @@ func cmdRun(args []string) int {
 		}
 	}
 	a := newAgg()
+	raceTrouble := false
 	var foundMu sync.Mutex
 	var founds []found
 	known := map[string]int{}
@@ -212,7 +215,7 @@ func cmdRun(args []string) int {
 				known[f.What]++
 				continue
 			}
-			founds = append(founds, found{v, r})
+			founds = append(founds, found{v, r, ""})
 		}
 	}
 
@@ -301,6 +304,71 @@ func cmdRun(args []string) int {
 		}
 	}
 
+	// race pass (C04's data-race clause): the same workload under a -race build in which the
+	// scheduler's hand-offs are invisible to the detector and the simulated sync primitives
+	// announce the happens-before edges of the real ones
+	if pc.Race && !enum && os.Getenv("VERIF_NO_RACE") == "" && (*famFlag == "" || os.Getenv("VERIF_RACE") != "") {
+		rbin := buildBinary(true)
+		seenKey := map[string]bool{}
+		handleRace := func(r *RunResult, idx int) {
+			foundMu.Lock()
+			defer foundMu.Unlock()
+			a.raceRuns++
+			if r.crashed || r.hang {
+				a.raceBroken++
+				return
+			}
+			for _, rr := range parseRaces(r.stderr) {
+				a.raceReports++
+				if !rr.lib {
+					a.raceNonLib++
+					continue
+				}
+				if seenKey[rr.key] {
+					continue
+				}
+				seenKey[rr.key] = true
+				v := Violation{Prop: "C04", Rule: "data-race", Detail: rr.text}
+				if f := matchFinding(findings, v); f != nil {
+					known[f.What]++
+					continue
+				}
+				founds = append(founds, found{v, r, rbin})
+			}
+		}
+		mkR := func(i int) RunSpec {
+			fam := fams[i%len(fams)].Name
+			return RunSpec{Family: fam, Prop: pc.ID, Seed: splitmix(splitmix(seed^strHash(pc.ID+"/race")) + uint64(i)), Case: -1, Race: true}
+		}
+		if *tier == "quick" {
+			n := 300
+			if *runsFlag > 0 {
+				n = *runsFlag / 10
+			}
+			parallel(n, *workers, func(i int) { handleRace(runSpec(rbin, mkR(i), 5_000_000+i), i) })
+		} else {
+			secs := pc.ThorSecs / 3
+			if *secsFlag > 0 {
+				secs = *secsFlag / 3
+			}
+			deadline := time.Now().Add(time.Duration(secs) * time.Second)
+			for batch := 0; time.Now().Before(deadline); batch++ {
+				base := batch * 256
+				parallel(256, *workers, func(i int) {
+					if time.Now().After(deadline) {
+						return
+					}
+					handleRace(runSpec(rbin, mkR(base+i), 5_000_000+base+i), base+i)
+				})
+			}
+		}
+		fmt.Printf("vcheck: race pass: runs=%d reports=%d (not between two library accesses: %d) broken=%d\n", a.raceRuns, a.raceReports, a.raceNonLib, a.raceBroken)
+		if a.raceRuns > 0 && a.raceBroken*5 > a.raceRuns {
+			fmt.Fprintf(os.Stderr, "vcheck: %d of %d race-build runs did not complete\n", a.raceBroken, a.raceRuns)
+			raceTrouble = true
+		}
+	}
+
 	// determinism spot check on this very tree: a sample of this run's seeds is
 	// re-executed in fresh processes with another GOMAXPROCS; event hashes must agree
 	detN, detBad := 0, 0
@@ -366,7 +434,11 @@ func cmdRun(args []string) int {
 				continue
 			}
 			seen[f.v.Rule] = true
-			p, ok := reportViolation(bin, pc.ID, f, *tier, *noMin, *workers)
+			fbin := bin
+			if f.bin != "" {
+				fbin = f.bin
+			}
+			p, ok := reportViolation(fbin, pc.ID, f, *tier, *noMin || f.bin != "", *workers)
 			if !ok {
 				fmt.Fprintf(os.Stderr, "vcheck: violation %s/%s found with seed %d did not replay deterministically\n", pc.ID, f.v.Rule, f.res.Seed)
 				exit = 2
@@ -388,6 +460,9 @@ func cmdRun(args []string) int {
 	}
 	if exit == 0 && a.runs > 0 && bad*5 > a.runs {
 		fmt.Fprintf(os.Stderr, "vcheck: %d of %d runs did not complete (crashed=%d hangs=%d aborted=%v): refusing to claim a pass\n", bad, a.runs, a.crashed, a.hangs, a.aborted)
+		exit = 2
+	}
+	if exit == 0 && raceTrouble {
 		exit = 2
 	}
 	if exit == 0 && detBad > 0 {
@@ -467,6 +542,15 @@ func writeEvidence(pc *propCfg, tier string, seed uint64, a *agg, wall float64, 
 		"known_findings_seen":          known,
 		"determinism_spot_check":       map[string]int{"seeds_rerun_at_other_GOMAXPROCS": detN, "mismatches": detBad},
 		"components":                   realStub,
+	}
+	if pc.Race {
+		cov["race_pass"] = map[string]interface{}{
+			"runs_under_race_build":                        a.raceRuns,
+			"runs_not_completed":                           a.raceBroken,
+			"detector_reports":                             a.raceReports,
+			"reports_not_between_two_library_accesses":     a.raceNonLib,
+			"how": "same families under a -race build: simrt and the harness are compiled without race instrumentation and the scheduler's hand-offs run with race synchronisation events ignored, so only the happens-before edges of the program itself remain (Go channels, atomics, context, timers natively; sync.Mutex/RWMutex/WaitGroup/Once/Pool replaced by simulated ones that announce the same edges; a socket write happens-before every later socket read, as in package syscall). Reports whose two accesses are not both made by library code are noise from the uninstrumented harness calling instrumented standard-library code and are counted, not judged. Self-test: ./check selftest race",
+		}
 	}
 	ev := map[string]interface{}{
 		"property_id": pc.ID,
